@@ -355,6 +355,35 @@ func c15Jobs() []sjob {
 			w.serveDone.Wait()
 			x.obs = fmt.Sprint(c1.Closed(), w.L.Accepted)
 		}},
+		{"H9 cancellation racing the next request of an idle connection that holds a pending session", func(x *sx) {
+			w := newSWorldR(e.Cfg, nil)
+			w.serve()
+			c1 := w.W.NewConn(1, srvx.Addr4(10, 0, 0, 1, 1001))
+			pk := func(p rPkt, seq byte) []byte {
+				typ, minor, body := p.body()
+				return ref.Packet(ref.Header{Version: 0xc0 | minor, Type: typ, Seq: seq, Session: sidOf(p.Sid)}, key, body)
+			}
+			w.L.Push(c1)
+			c1.Feed(pk(rPkt{Kind: "ascii", Sid: 0}, 1))
+			vsyncrt.Quiesce() // the login waits for its user name, the connection is idle in its read
+			var wg vsyncrt.WaitGroup
+			wg.Add(1)
+			vsyncrt.Go(func() {
+				c1.Feed(pk(rPkt{Kind: "cont", Msg: "own", Sid: 0}, 3))
+				c1.Feed(pk(rPkt{Kind: "ascii", User: "viagroup", Sid: 1}, 1))
+				wg.Done()
+			})
+			w.cancel()
+			w.L.FireDeadline()
+			wg.Wait()
+			vsyncrt.Quiesce()
+			c1.FireDeadline()
+			w.serveDone.Wait()
+			if !c1.Closed() {
+				x.fail("H9/functional", "the connection is still open after Serve returned")
+			}
+			x.obs = fmt.Sprint(len(c1.Log))
+		}},
 	}
 }
 
@@ -515,16 +544,24 @@ func c17Scripts(n int) [][]string {
 	return out
 }
 
-func c17Body(script []string, pending, patient bool) func(x *sx) {
+// c17ProxyLine is the HAProxy v1 line the reference server strips in front of every packet when built with SetUseProxy
+var c17ProxyLine = []byte("PROXY TCP4 192.0.2.1 192.0.2.2 1000 49\r\n\x00")
+
+func c17Body(script []string, pending, patient bool, proxy ...bool) func(x *sx) {
+	useProxy := len(proxy) > 0 && proxy[0]
 	return func(x *sx) {
 		world := vsyncrt.NewWorld()
 		w := newSWorldL(c17Key, nil)
 		w.W = world
 		w.L = world.NewListener()
-		w.srv = tq.NewServer(w.lg, srvx.FixedSecret{Key: c17Key, H: c17Handler{w: world, pending: pending}})
+		w.srv = tq.NewServer(w.lg, srvx.FixedSecret{Key: c17Key, H: c17Handler{w: world, pending: pending}}, tq.SetUseProxy(useProxy))
 		w.serve()
 		var conns []*vsyncrt.Conn
 		full := authorPkt(c17Key, "u", 7, "service=shell", "cmd=show")
+		partial := full[:7]
+		if useProxy {
+			partial = c17ProxyLine[:9] // a proxy line that never gets its terminator
+		}
 		sess := uint32(100)
 		for _, ev := range script {
 			switch ev[0] {
@@ -540,9 +577,13 @@ func c17Body(script []string, pending, patient bool) func(x *sx) {
 				hdr := ref.DecodeHeader(p)
 				body := ref.Obfuscate(hdr, c17Key, p[12:])
 				hdr.Session = sess
-				c.Feed(ref.Packet(hdr, c17Key, body))
+				if useProxy {
+					c.Feed(append(append([]byte{}, c17ProxyLine...), ref.Packet(hdr, c17Key, body)...))
+				} else {
+					c.Feed(ref.Packet(hdr, c17Key, body))
+				}
 			case 'P':
-				conns[ev[1]-'0'].Feed(full[:7])
+				conns[ev[1]-'0'].Feed(partial)
 			case 'D':
 				vsyncrt.Advance(20 * 1e9)
 				conns[ev[1]-'0'].FireDeadline()
@@ -635,6 +676,12 @@ func c17Jobs(quick bool) []sjob {
 			jobs = append(jobs, sjob{"script (sessions left pending, each event digested) " + strings.Join(s, " "), c17Body(s, true, true)})
 			jobs = append(jobs, sjob{"script (sessions left pending) " + strings.Join(s, " "), c17Body(s, true, false)})
 		}
+	}
+	// the same server built with SetUseProxy: a proxy line precedes every packet, P is a proxy line that is never terminated
+	for _, s := range c17Scripts(n - 1) {
+		s := s
+		jobs = append(jobs, sjob{"proxy mode, script " + strings.Join(s, " "), c17Body(s, false, false, true)})
+		jobs = append(jobs, sjob{"proxy mode, script (each event digested before the next) " + strings.Join(s, " "), c17Body(s, false, true, true)})
 	}
 	return jobs
 }
